@@ -238,22 +238,26 @@ func (group *Group) Dispose() {
 	for session := range group.rtmpSubSessionSet {
 		session.Dispose()
 	}
-	group.rtmpSubSessionSet = nil
+	// 注意，不能置为nil：group还在manager中，dispose之后仍可能有新的sub加入，往nil的map中写入会panic
+	group.rtmpSubSessionSet = make(map[*rtmp.ServerSession]struct{})
 
 	for session := range group.rtspSubSessionSet {
 		session.Dispose()
 	}
-	group.rtspSubSessionSet = nil
+	// 注意，不能置为nil：group还在manager中，dispose之后仍可能有新的sub加入，往nil的map中写入会panic
+	group.rtspSubSessionSet = make(map[*rtsp.SubSession]struct{})
 
 	for session := range group.httpflvSubSessionSet {
 		session.Dispose()
 	}
-	group.httpflvSubSessionSet = nil
+	// 注意，不能置为nil：group还在manager中，dispose之后仍可能有新的sub加入，往nil的map中写入会panic
+	group.httpflvSubSessionSet = make(map[*httpflv.SubSession]struct{})
 
 	for session := range group.httptsSubSessionSet {
 		session.Dispose()
 	}
-	group.httptsSubSessionSet = nil
+	// 注意，不能置为nil：group还在manager中，dispose之后仍可能有新的sub加入，往nil的map中写入会panic
+	group.httptsSubSessionSet = make(map[*httpts.SubSession]struct{})
 
 	group.delIn()
 }
